@@ -228,6 +228,40 @@ Proof.
     lra.
 Qed.
 
+(* the explicit bound: 32 * t * 2^-53 * M *)
+Theorem ema_float_error : forall p s xs M, ema_new O p = Ok s -> (p < 9007199254740992)%N ->
+  bpow radix2 (-960) <= M -> M <= bpow radix2 990 -> Forall (okin M) xs -> INR (length xs) * u <= / 256 ->
+  let outs := ema_outs O s xs in
+  let reals := ema_stream (kreal p) (map FR xs) in
+  length outs = length xs /\
+  forall j, (j < length xs)%nat ->
+    finF (nth j outs 0%float) /\
+    Rabs (FR (nth j outs 0%float) - nth j reals 0) <= 32 * INR (j + 1) * u * M.
+Proof.
+  intros p s xs M H Hp HMl HMu Hxs Htu outs reals.
+  assert (HM0 : 0 <= M) by (eapply Rle_trans; [apply bpow_ge_0|exact HMl]).
+  unfold ema_new in H. destruct (N.eqb_spec p 0) as [->|Hp0]; [discriminate|]. injection H as <-.
+  change (div O (two O) (add O (ofN O p) (one O))) with (kf p) in *.
+  destruct (kf_close p ltac:(lia)) as [Fk Hk].
+  assert (Hal : 0 < kreal p <= 1) by (apply kreal_range; exact Hp0).
+  destruct xs as [|x xs]; [split; [reflexivity|intros j Hj; cbn in Hj; lia]|].
+  pose proof (Forall_inv Hxs) as Hx. pose proof (Forall_inv_tail Hxs) as Hxs'.
+  unfold outs, reals. cbn [ema_outs map ema_stream]. unfold ema_next at 1. cbn [ema_is_new ema_k ema_current ema_period].
+  change (2 / (f_ofN p + 1))%float with (kf p).
+  assert (A1 : Rabs (FR x - FR x) <= 0) by (rewrite Rminus_diag_eq by reflexivity; rewrite Rabs_R0; lra).
+  assert (A2 : 0 <= 0 <= 32 * INR 1 * u * M).
+  { split; [lra|]. pose proof u_pos. cbn. assert (0 <= u * M) by (apply Rmult_le_pos; lra). lra. }
+  assert (A3 : INR (1 + length xs) * u <= / 256) by (replace (1 + length xs)%nat with (length (x :: xs)) by reflexivity; exact Htu).
+  change (alpha p) with (kreal p) in Hk.
+  pose proof (fema_run p (kreal p) M Fk Hk Hal HMl HMu xs x (FR x) 0 1%nat (proj1 Hx) A1 A2 (proj2 Hx) Hxs' A3) as (L1 & L2 & Hn).
+  cbn [length]. split; [now rewrite L1|].
+  intros [|j] Hj; cbn [nth].
+    + split; [apply Hx|]. rewrite Rminus_diag_eq by reflexivity. rewrite Rabs_R0.
+      pose proof u_pos. assert (0 <= 32 * INR (0 + 1) * u) by (cbn; lra). apply Rmult_le_pos; assumption.
+    + destruct (Hn j ltac:(lia)) as [Fo Ho]. split; [exact Fo|]. eapply Rle_trans; [exact Ho|].
+      replace (1 + j + 1)%nat with (S j + 1)%nat by lia. lra.
+Qed.
+
 (* binary64 EMA stays within tau(t) * M of the real recursion with alpha = 2/(n+1): every period below 2^53, every stream
    of up to 2^45 finite inputs with magnitudes bounded by M, 2^-960 <= M <= 2^990 *)
 Theorem ema_float_within_tau : forall p s xs M, ema_new O p = Ok s -> (p < 9007199254740992)%N ->
